@@ -37,7 +37,7 @@ def serializer(ctx):
     by = {c.callee: c for c in calls}
     cw, cr = by.get(("a", fifo, "write")), by.get(pat("self.serialized_req_method"))
     ok = cw is not None and cr is not None and len(calls) == 2 and not _inner_guards(ex, cw, sin) and not _inner_guards(ex, cr, sin) and cw.enable is None and cr.enable is None
-    ok = ok and cw.args == (("dict", ((("c", "id"), i_in),)),) and cr.args == (("arg", sin.bodyid),)
+    ok = ok and ((cw.args == (("dict", ((("c", "id"), i_in),)),) and not cw.kwargs) or (cw.args == () and cw.kwargs == (("id", i_in),))) and cr.args == (("arg", sin.bodyid),)
     ctx.check(ok, "C19.serializer-request", sin.site, "Serializer.serialize_in", found="; ".join(f"{tstr(c.callee)}({', '.join(tstr(a) for a in c.args)})" for c in calls),
               required="port i records its own id i and forwards the request, both unconditionally (atomically in one method)")
     # out
